@@ -2,6 +2,16 @@
 import glob, json, os, shutil
 import vlib
 
+SIGN_WHAT = "the string formatter.FormatSignPayload returned (rebuilt as ucan.VerifySignature does) differs from the model's sign_payload (Signing.v / DagJson.v)"
+JSON_WHAT = {
+    "nodes": {1: "ipld.Encode(node, dagjson.Encode) differs from the model's json_encode (bytes, or success / failure)",
+              2: "the harness's verdict 'all strings valid UTF-8 (utf8.ValidString), no reserved slash map' differs from the model's json_safe"},
+    "cids": {1: "cid.String() differs from the model's cid_string"},
+    "dids": {1: "did.Decode(bytes).String() differs from the model's did_string", 2: "did.Decode accepts / rejects unlike the model's did_okb"},
+    "strs": {1: "utf8.ValidString differs from the model's utf8_valid", 2: "base64.RawStdEncoding differs from b64std", 3: "base64.RawURLEncoding differs from b64url",
+             4: "multibase base32 differs from b32lower", 5: "multibase base58btc differs from b58enc"},
+}
+
 
 def check(run):
     env = vlib.standard_prelude(run)
@@ -14,48 +24,92 @@ def check(run):
     if rc != 0:
         run.violation("harness-run", "harness gen C07 failed: " + out[-800:], dict(log=out[-3000:]), no_input=("panic" not in out))
         return
+    rc, out, dt = vlib.run_harness(env["bin"], ["gen", "JSON", "-tier", run.tier, "-seed", str(run.seed), "-out", wd], timeout=2400)
+    if rc != 0:
+        run.violation("harness-run", "harness gen JSON failed: " + out[-800:], dict(log=out[-3000:]), no_input=("panic" not in out))
+        return
     stats = json.load(open(os.path.join(wd, "stats.json")))
+    jstats = json.load(open(os.path.join(wd, "stats_json.json")))
+    plain = True
     for d in stats.get("direct_violations") or []:
-        key = "verifies-after-altering:" + d["alteration"] if "alteration" in d else "issued-token-does-not-verify"
-        if "another principal" in d["what"]:
-            key = "verifies-for-other-principal"
+        if d.get("key"):
+            # a dag-json collision: a different token value with the same signed bytes still verifies
+            key = d["key"]
+        else:
+            plain = False
+            key = "verifies-after-altering:" + d["alteration"] if "alteration" in d else "issued-token-does-not-verify"
+            if "another principal" in d["what"]:
+                key = "verifies-for-other-principal"
         run.violation(key, "token %s (%s): %s" % (d["token"], d["label"], d["what"]), d)
-    run.obligation("oracle: every issued token verifies (fresh and after encode/decode), no altered token and no other principal verifies",
-                   not stats.get("direct_violations"))
+    run.obligation("oracle: every issued token verifies (fresh and after encode/decode), no altered token and no other principal verifies "
+                   "(dag-json collision alterations are reported under their own keys)", plain)
     for u in (stats.get("issued_but_undecodable") or [])[:3]:
         run.violation("issued-token-undecodable", "the library cannot decode the root block of a token it issued (%s, caveat kinds %s)" % (u["label"], u["nb_kinds"]), u)
+    for p in (jstats.get("go_problems") or [])[:3]:
+        run.violation("dagjson-go-panic", p, dict(problem=p))
     res = vlib.run_case_files(sorted(glob.glob(os.path.join(wd, "cases_*.v"))))
-    ok = True
+    ok = sign_ok = json_ok = True
     for f, (r, o2) in sorted(res.items()):
+        base = os.path.basename(f)
+        parts = base.split("_")
         if r is None:
-            ok = False
-            run.notes.append("case file failed: %s: %s" % (os.path.basename(f), o2[-500:]))
+            if base.startswith("cases_C07_sign"): sign_ok = False
+            elif base.startswith("cases_JSON"): json_ok = False
+            else: ok = False
+            run.notes.append("case file failed: %s: %s" % (base, o2[-500:]))
             continue
         for tid, code in r:
-            ok = False
-            what = {1: "the token root block bytes differ from the model's layout (Formats.token_bytes)",
-                    2: "decoding the block with the model does not give the token back"}.get(code, str(code))
-            run.violation("token-bytes:" + str(code), "token %d: %s" % (tid, what), dict(token=tid, code=code, case_file=f))
+            if base.startswith("cases_C07_sign"):
+                sign_ok = False
+                run.violation("sign-payload", "token %d%s: %s" % (tid % 1000000, " (after a collision alteration)" if tid >= 1000000 else "", SIGN_WHAT),
+                              dict(token=tid, code=code, case_file=f))
+            elif base.startswith("cases_JSON"):
+                json_ok = False
+                kind = parts[2]
+                run.violation("dagjson-model:%s:%d" % (kind, code), "%s case %d: %s" % (kind, tid, JSON_WHAT.get(kind, {}).get(code, str(code))),
+                              dict(case=tid, kind=kind, code=code, case_file=f))
+            else:
+                ok = False
+                what = {1: "the token root block bytes differ from the model's layout (Formats.token_bytes)",
+                        2: "decoding the block with the model does not give the token back"}.get(code, str(code))
+                run.violation("token-bytes:" + str(code), "token %d: %s" % (tid, what), dict(token=tid, code=code, case_file=f))
     run.obligation("correspondence: Formats.token_bytes = root block bytes, token_decode inverts it, for every issued token", ok)
-    if not ok and not run.violations:
+    run.obligation("correspondence: Signing.sign_payload = the exact string FormatSignPayload returns for every issued token (and for the collision-altered ones)", sign_ok)
+    run.obligation("correspondence: DagJson.json_encode / json_safe / cid_string / did_string / utf8_valid / base64 / base32 / base58 = dagjson.Encode, "
+                   "Cid.String, DID.String, utf8.ValidString, encoding/base64, multibase on random and adversarial values", json_ok)
+    if not (ok and sign_ok and json_ok) and not run.violations:
         run.violation("correspondence-broken", "case files could not be evaluated", dict(notes=run.notes), no_input=True)
     if not env["props_ok"] or not env["coq_ok"]:
         run.violation("proof-broken", "Coq development or Properties_C07.v no longer checks", dict(log=env["props_log"][-1500:]), no_input=True)
-    run.cov.update(evaluations=stats["tokens"] + stats["verify_calls"] + stats["alterations_checked"],
+    nj = jstats["nodes"] + jstats["cids"] + jstats["dids"] + jstats["strs"]
+    run.cov.update(evaluations=stats["tokens"] + stats["verify_calls"] + stats["alterations_checked"] + stats["sign_cases"] + nj,
                    distinct_nontrivial=stats["option_masks_covered"] * 3 + len(stats["alteration_histogram"]),
                    rule="tokens issued through delegation.Delegate with every subset of {explicit expiration, no expiration, not-before, nonce, facts, "
                         "proofs} (all 64 masks, then random ones), 1..3 capabilities whose caveats and fact values are random IPLD values of all kinds "
-                        "(nested maps with keys of different lengths, lists, links, bytes, ints, unicode / arbitrary-byte strings), Ed25519, RSA and "
-                        "wrapped issuers; for each: VerifySignature fresh and after re-decoding the root block, against every other principal, and after "
-                        "each of 18 single-field alterations; the root block bytes compared with the model's layout. distinct = option masks x key kinds + alteration kinds",
+                        "(nested maps with keys of different lengths, lists, links, bytes, ints, unicode / arbitrary-byte strings; every third token has caveats "
+                        "with bytes, a link, an int and a string holding an invalid UTF-8 byte; every fifth a generic audience DID with an invalid UTF-8 byte), "
+                        "Ed25519, RSA and wrapped issuers; for each: VerifySignature fresh and after re-decoding the root block, against every other principal, and after "
+                        "each of 20 single-field alterations plus the 5 dag-json collision alterations; the root block bytes compared with the model's layout; the "
+                        "string FormatSignPayload returns compared with sign_payload. JSON stream: random nodes (gen_cbor.randNode) and adversarial ones (keys '/', '', "
+                        "control characters, U+2028/9, U+FFFD, every class of invalid UTF-8, int64 bounds, uint64 above int64, empty / 1000-byte bytes, reserved slash "
+                        "shapes and near misses, CIDv0/v1 with 6 codecs and 7 hash codes, identity hashes) through dagjson.Encode; DID byte strings (key, generic, "
+                        "invalid UTF-8, undecodable); byte strings through utf8 / base64 / base32 / base58. distinct = option masks x key kinds + alteration kinds",
                    samples=stats["samples"][:5], alteration_histogram=stats["alteration_histogram"],
+                   collision_histogram=stats.get("collision_histogram"), sign_cases=stats["sign_cases"],
                    option_masks_covered=stats["option_masks_covered"], verify_calls=stats["verify_calls"],
-                   alterations_checked=stats["alterations_checked"])
+                   alterations_checked=stats["alterations_checked"],
+                   json_stream=dict((k, jstats[k]) for k in ("nodes", "cids", "dids", "strs", "nodes_with_floats_skipped", "integral_floats_printing_like_the_int",
+                                                             "encode_errors", "nodes_not_json_safe", "safe_nodes_not_read_back_by_dagjson_decode")),
+                   json_samples=jstats.get("samples", [])[:3])
+    if jstats.get("safe_nodes_not_read_back_by_dagjson_decode"):
+        run.notes.append("json_safe nodes that go-ipld-prime's dagjson.Decode does not read back: %s" % jstats.get("decode_samples"))
     run.assumptions += ["symbolic signatures: valid_sign / valid_unique (Ed25519 and RSA PKCS#1 v1.5 are deterministic and unforgeable)",
-                        "dag-json + base64url + '.' joining of header and payload is injective on well-formed values and invariant under map key order (json_inj, json_canon, join_inj): exercised through VerifySignature, not modelled byte for byte",
-                        "DID and CID string encodings injective (C14)",
+                        "the signed bytes are modelled byte for byte (dag-json, base64url, '.', DID and CID strings: DagJson.v, BaseEnc.v, JsonText.v) and compared with "
+                        "FormatSignPayload / dagjson.Encode / Cid.String / DID.String on every run; injectivity is PROVED on json_safe payloads and refuted outside",
+                        "floats are outside the Coq model (Ipld.v has no float constructor): the integral-float collision is detected dynamically only",
                         "go-ipld-prime's dag-cbor codec behaves as Cbor.v (checked by bin/check CBOR and by the byte comparison here)",
-                        "top-level null caveats / fact values and unsigned integers above int64 are outside the generator (the library cannot issue or re-read such tokens; not in the property's list of kinds)"]
+                        "top-level null caveats / fact values and unsigned integers above int64 are outside the token generator (the library cannot issue or re-read such "
+                        "tokens; dagjson.Encode's failure on them is compared in the JSON stream)"]
 
 
 def replay(path):
